@@ -63,7 +63,7 @@ impl ReplHighlighter {
             Some((
                 _,
                 &Token {
-                    token_type: TokenType::LeftParen | TokenType::RightParen,
+                    token_type: TokenType::LeftParen | TokenType::RightParen | TokenType::HashParen,
                     ..
                 },
             ))
@@ -82,7 +82,7 @@ fn find_matching_bracket<'a>(
                 TokenType::LeftParen,
                 Box::new(tokens[..(bracket.0)].iter().rev()),
             ),
-            TokenType::LeftParen => (
+            TokenType::LeftParen | TokenType::HashParen => (
                 TokenType::LeftParen,
                 TokenType::RightParen,
                 Box::new(tokens[(bracket.0 + 1)..].iter()),
@@ -92,11 +92,17 @@ fn find_matching_bracket<'a>(
 
     let mut stack = 0;
     for it in &mut *iter {
-        if it.token_type == have {
+        // A vector opener nests like any other opening bracket
+        let token_type = match it.token_type {
+            TokenType::HashParen => TokenType::LeftParen,
+            ref token_type => token_type.clone(),
+        };
+
+        if token_type == have {
             stack += 1;
         }
 
-        if it.token_type == want {
+        if token_type == want {
             if stack == 0 {
                 return Some(it);
             } else {
